@@ -366,6 +366,7 @@ def _write_evidence(engine, prop, tier, base_seed, agg, det, pre, known_hits, n_
         'simulated_time_note': engine.sim_time_note,
         'seam_steps': agg.steps,
         'fault_kinds_fired': {k[6:]: v for k, v in sorted(agg.counters.items()) if k.startswith('fault:')},
+        'fault_note': engine.fault_note,
         'probes': {k[6:]: v for k, v in sorted(agg.counters.items()) if k.startswith('probe:')},
         'ops': {k[3:]: v for k, v in sorted(agg.counters.items()) if k.startswith('op:')},
         'other_counters': {k: v for k, v in sorted(agg.counters.items()) if ':' not in k},
